@@ -1,6 +1,9 @@
 import MythVerif.Proofs.DagRecSpan
 import MythVerif.Proofs.DagRecCount
 import MythVerif.Proofs.DagRecStat
+import MythVerif.Proofs.DagRecPathMain
+import MythVerif.Proofs.DagRecPathCount
+import MythVerif.Proofs.DagRecPathFlat
 /-!
 # C18 — DAG Recorder totals do not depend on how the DAG was contracted
 
@@ -17,6 +20,38 @@ every worker assignment (workers are part of the raw interval data), every setti
 contraction options — and in `C18_policy_independent` every contraction policy whatsoever.
 The theorems are about `Variant.fixed`, the current source; `Variant.pinned` (the snapshot's
 edge counting and `dr_collapse_subgraph`) is kept with its refutations at the end.
+
+The critical path.  What `dr_accumulate_stats` computes for `t_inf` is a sum of interval LENGTHS
+(`end − start` of each interval, `dr_end_interval_`) along the heaviest chain: the serial sum of
+the children's `t_inf`, and a running maximum over `prefix + child.t_inf` for the tasks created
+in a section.  No time stamp other than through these lengths, and no `est`, enters it.  Two
+characterisations are proved, for every well-nested execution and arbitrary stamps (no causality
+hypothesis is needed):
+* `C18_span_eq_est_finish`: `t_inf` of the root = `max (est + length)` over all intervals, `est`
+  being the recorder's own top-down earliest-start propagation;
+* `C18_span_is_longest_path`: `t_inf` of the root = the weight of a LONGEST PATH of the explicit
+  dependency graph `depGraph t` of the uncontracted execution (`Proofs/DagRecPath.lean`): vertices
+  = the intervals in program order, vertex weight = interval length `Leaf.dur`, edges = the
+  dependency edges `dr_pi_dag_enum_edges` emits for the uncontracted DAG (last interval of a
+  non-last child → first interval of its successor; create interval → first interval of the
+  created task; `end_task` interval of the created task → first interval after the creating
+  section), path weight = sum of the vertex weights.  Both halves are proved: no path is heavier,
+  and a path starting at the first interval attains the value.  `…_any_policy` transfers it to the
+  DAG recorded under any admissible contraction policy.
+That `depGraph` is the graph of the C19 model and not a private invention is proved twice:
+`C18_dep_edge_counts` (its edge numbers by kind = the root's `logical_edge_counts`), and
+`Proofs/DagRecPathDump.lean` `teN_rec`: the edge list `dr_pi_dag_enum_edges` emits for a dump of the
+uncontracted recording (`PiDag.teN`, a permutation of `enumEdges`) is `edgesT t 0` with every
+position renamed to the array slot its interval occupies.  On that basis
+* `C18_span_is_longest_path_of_dump`: in `flatten sc' nw (record v {} sc t)` — the position
+  independent DAG `dr_make_pi_dag` builds from the uncontracted recording, i.e. what `dr_dump`
+  writes — with vertices = slots of `T`, weights = `t_1` of the leaf slots (0 for the section /
+  task slots, which have no edges), edges = the array `E` as `dr_pi_dag_enum_edges` + sort produce
+  it, `t_inf` stored in the root slot `T[0]` is the weight of a longest path; `C18_span_any_options_…` says the root of
+  the recording under ANY option setting reports that same number.
+What is NOT proved: a longest-path reading of a CONTRACTED dump (collapsed sections / tasks as
+single vertices weighing their `t_inf`); the edge KINDS of the dump are compared with those of
+`depGraph` only through their counts (the renaming theorem compares end points).
 -/
 namespace MythVerif.DagRec
 
@@ -70,6 +105,70 @@ theorem C18_span_eq_est_finish (v : Variant) (o : Opts) (sc : Nat) (t : Tree) (h
   rw [View.sub_none _ (by simp [viewTree])] at this
   simp only [rootCursor] at this ⊢
   omega
+
+/-- **span = longest path of the dependency DAG of the recorded intervals.**  For every
+    well-nested execution `t` (any stamps, any workers, any option setting): in the explicit
+    dependency graph `depGraph t` of the uncontracted execution — vertex `i` = the `i`-th interval
+    of `leavesTree t`, weighted by its length `end − start`; edges = create → first interval of
+    the child, create → continuation, other → continuation, wait → continuation of the section,
+    `end_task` of a created task → continuation of the creating section —
+    (1) every path (list of vertices, consecutive ones joined by an edge) has weight, i.e. sum of
+    interval lengths, at most the root's `t_inf`, and (2) some path, starting at the first
+    interval, has exactly that weight.  The weight is a sum of pure interval lengths, which is
+    what `dr_accumulate_stats` adds up (serial sum of `t_inf`, running max over
+    `prefix + child.t_inf`); time stamps enter only through the lengths. -/
+theorem C18_span_is_longest_path (v : Variant) (o : Opts) (sc : Nat) (t : Tree) (h : wnTask t = true) :
+    (∀ p, (depGraph t).IsPath p → (depGraph t).pathWeight p ≤ (record v o sc t).info.c.tinf) ∧
+    (∃ p, (depGraph t).IsPath p ∧ p.head? = some 0 ∧
+      (depGraph t).pathWeight p = (record v o sc t).info.c.tinf) := by
+  rw [C18_span_eq_est_finish v o sc t h]
+  exact maxFinish_is_longest_path v sc t h
+
+/-- the same as a maximum: the root's `t_inf` is THE weight of a longest path -/
+theorem C18_span_is_max_path_weight (v : Variant) (o : Opts) (sc : Nat) (t : Tree) (h : wnTask t = true) :
+    (depGraph t).IsLongestPathWeight (record v o sc t).info.c.tinf := by
+  obtain ⟨h1, p, hp, _, hw⟩ := C18_span_is_longest_path v o sc t h
+  exact ⟨h1, p, hp, hw⟩
+
+/-- by `C18_policy_independent`: whatever admissible contraction policy the DAG was recorded
+    under (any subset of sections / tasks collapsed or pruned at any time), the `t_inf` its root
+    reports is the weight of a longest path of the dependency graph of the UNCONTRACTED execution -/
+theorem C18_span_is_longest_path_any_policy (v : Variant) (pol : Policy) (hpol : Admissible pol)
+    (sc : Nat) (t : Tree) (h : wnTask t = true) :
+    (∀ p, (depGraph t).IsPath p →
+      (depGraph t).pathWeight p ≤ (recTree v pol t (rootCursor sc)).1.info.c.tinf) ∧
+    (∃ p, (depGraph t).IsPath p ∧ p.head? = some 0 ∧
+      (depGraph t).pathWeight p = (recTree v pol t (rootCursor sc)).1.info.c.tinf) := by
+  have e := C18_policy_independent v pol (summarize v {}) hpol (admissible_summarize v {}) t (rootCursor sc)
+  rw [e]
+  exact C18_span_is_longest_path v {} sc t h
+
+/-- **the same on the dumped DAG**: take the position independent DAG `dr_make_pi_dag` builds from
+    the uncontracted recording (`flatten`; any clock origin `sc'`, any worker count).  Vertices =
+    the slots of its node array `T`, a leaf slot weighing its `t_1` (interval length) and a
+    section / task slot nothing; edges = its edge array `E` (`dr_pi_dag_enum_edges`, sorted).  The
+    `t_inf` in the root slot is the weight of a longest path of that graph. -/
+theorem C18_span_is_longest_path_of_dump (v : Variant) (sc : Nat) (t : Tree) (h : wnTask t = true) (sc' nw : Nat) :
+    (dumpGraph (PiDag.flatten sc' nw (record v {} sc t))).IsLongestPathWeight
+      (PiDag.flatten sc' nw (record v {} sc t)).T[0]!.info.c.tinf := by
+  have h0 : (PiDag.flatten sc' nw (record v {} sc t)).T[0]!.info.c.tinf = (record v {} sc t).info.c.tinf := by
+    rw [(PiDag.flatten_spec sc' nw (record v {} sc t)).2]; rfl
+  rw [h0, C18_span_eq_est_finish v {} sc t h]
+  exact dump_longest_path v sc t h sc' nw
+
+/-- … and the root of the DAG recorded under any option setting reports exactly that number -/
+theorem C18_span_any_options_is_dump_longest_path (v : Variant) (o : Opts) (sc : Nat) (t : Tree)
+    (h : wnTask t = true) (sc' nw : Nat) :
+    (dumpGraph (PiDag.flatten sc' nw (record v {} sc t))).IsLongestPathWeight (record v o sc t).info.c.tinf := by
+  rw [C18_span_eq_est_finish v o sc t h]
+  exact dump_longest_path v sc t h sc' nw
+
+/-- the dependency graph is the graph whose edges the recorder counts: it has exactly as many
+    edges of each of the five kinds as the root reports in `logical_edge_counts` (current source) -/
+theorem C18_dep_edge_counts (o : Opts) (sc : Nat) (t : Tree) (h : wnTask t = true) :
+    edgeCounts (depGraph t).edges = (record .fixed o sc t).info.c.ec := by
+  rw [(C18_counts_exact o sc t h).2]
+  exact edgeCounts_task t h
 
 /-- the critical path never exceeds the work (any tree, any stamps) -/
 theorem C18_span_le_work (v : Variant) (o : Opts) (sc : Nat) (t : Tree) :
@@ -130,6 +229,53 @@ example : (record .fixed { collapseMax := 1000 } 5 demo).info.c.t1 = 93 ∧
 example : (record .fixed { nodeCountTarget := 3 } 5 demo).info.c.tinf = 81 ∧
     (record .fixed { nodeCountTarget := 3 } 5 demo).count = 8 := by decide
 example : (record .fixed {} 5 demo).info.c.ec = ⟨1, 1, 1, 1, 3⟩ := by decide
+
+/-- the dependency graph of `demo`: 7 intervals; the create interval (vertex 1) has a `create`
+    edge to the child's first interval (2) and a `create_cont` edge to the parent's continuation
+    (4); the child's `end_task` (3) and the section's wait (5) both lead to the root's `end_task` (6) -/
+example : (depGraph demo).dur = [10, 9, 19, 38, 8, 4, 5] ∧
+    (depGraph demo).edges = [⟨.otherCont, 0, 1⟩, ⟨.waitCont, 5, 6⟩, ⟨.create, 1, 2⟩, ⟨.end_, 3, 6⟩,
+      ⟨.createCont, 1, 4⟩, ⟨.otherCont, 4, 5⟩, ⟨.otherCont, 2, 3⟩] := by decide
+
+/-- in `demo` the longest path goes THROUGH THE CHILD: other, create, the child's two intervals,
+    the root's end — weight 10 + 9 + 19 + 38 + 5 = 81 = `t_inf`; the path that stays in the parent
+    weighs only 36 -/
+example : (depGraph demo).IsPath [0, 1, 2, 3, 6] ∧ (depGraph demo).pathWeight [0, 1, 2, 3, 6] = 81 ∧
+    (record .fixed {} 5 demo).info.c.tinf = 81 ∧
+    (depGraph demo).IsPath [0, 1, 4, 5, 6] ∧ (depGraph demo).pathWeight [0, 1, 4, 5, 6] = 36 := by decide
+
+/-- jumping from the child back into the middle of the section, or skipping an interval, is not a path -/
+example : ¬ (depGraph demo).IsPath [0, 1, 2, 3, 5] ∧ ¬ (depGraph demo).IsPath [0, 2] ∧
+    ¬ (depGraph demo).IsPath [] ∧ ¬ (depGraph demo).IsPath [7] := by decide
+
+/-- the dump of `demo` has 10 slots (3 sections / tasks weighing 0, 7 intervals; program order ↦
+    slots 1, 4, 8, 9, 5, 6, 3); the longest path of its edge array weighs 81 (it is
+    1 → 4 → 8 → 9 → 3, through the child); `mergeSort` does not reduce in the kernel, so the edge
+    array itself is not unfolded here but reached through the theorem -/
+example : (dumpGraph (PiDag.flatten 5 2 (record .fixed {} 5 demo))).dur = [0, 10, 0, 5, 9, 8, 4, 0, 19, 38] ∧
+    (dumpGraph (PiDag.flatten 5 2 (record .fixed {} 5 demo))).pathWeight [1, 4, 8, 9, 3] = 81 ∧
+    PiDag.leavesN (record .fixed {} 5 demo) 0 1 = [1, 4, 8, 9, 5, 6, 3] := by decide +kernel
+
+example : (dumpGraph (PiDag.flatten 5 2 (record .fixed {} 5 demo))).IsLongestPathWeight 81 := by
+  have := C18_span_any_options_is_dump_longest_path .fixed {} 5 demo (by decide) 5 2
+  rwa [show (record .fixed {} 5 demo).info.c.tinf = 81 by decide] at this
+
+/-- the same program with a short child (1 + 2 cycles) and a long continuation in the parent -/
+def demoParent : Tree :=
+  .group .task (.cons (.ival .other (r 10 20 0))
+    (.cons (.group .section
+      (.cons (.create (r 21 30 0) (.group .task (.cons (.ival .other (r 31 32 1)) (.cons (.ival .endTask (r 33 35 1)) .nil))))
+      (.cons (.ival .other (r 32 72 0)) (.cons (.ival .waitTasks (r 73 77 0)) .nil))))
+    (.cons (.ival .endTask (r 95 100 0)) .nil)))
+
+example : wnTask demoParent = true := by decide
+
+/-- in `demoParent` the longest path STAYS IN THE PARENT (create, create_cont, other, wait, end:
+    10 + 9 + 40 + 4 + 5 = 68 = `t_inf`); the path through the child weighs 27 -/
+example : (depGraph demoParent).IsPath [0, 1, 4, 5, 6] ∧ (depGraph demoParent).pathWeight [0, 1, 4, 5, 6] = 68 ∧
+    (record .fixed {} 5 demoParent).info.c.tinf = 68 ∧
+    (record .fixed { uncollapseMin := 1000 } 5 demoParent).info.c.tinf = 68 ∧
+    (depGraph demoParent).IsPath [0, 1, 2, 3, 6] ∧ (depGraph demoParent).pathWeight [0, 1, 2, 3, 6] = 27 := by decide
 
 /-- **the pinned snapshot violated C18**: it never counted `other_cont` edges, so the root's edge
     counts differed from the uncontracted sequence (3 such edges here) … -/
